@@ -24,7 +24,7 @@ clause → theorem
 * the mounted handler strips only the prefix ............................. `C07.pointer_for_strips_only_prefix`, `C07.relative_pointer_strips_only_prefix`
 * struct segments = RFC 6901 tokens, any depth (stack and spill branch) .. `C07.segments_rfc6901`, `C07.struct_segments`, `C07.struct_segments_root`
 * `replace("~1","/").replace("~0","~")` = unescape on well-formed tokens . `C07.replace_is_unescape` (`~01` regression: `C07.tilde01`)
-* mounted struct: body gate, tokens handed to `repe_handle`, derive addressing `C07.mounted_struct_call`, `C07.derived_addresses_segments`, `C07.derived_read_after_write`, `C07.struct_and_adapter_gates`
+* mounted struct: body gate, tokens handed to `repe_handle`, derive addressing `C07.mounted_struct_call`, `C07.derived_addresses_segments`, `C07.derived_read_after_write`, `C07.struct_and_adapter_gates`, `C07.nested_struct_sees_remaining_tokens`, `C07.nested_equals_direct_mount`
 * composition with C03 (`found` of `route`/`respond` = this `Router.get`) .. `C07.found_iff_registered`, `C07.served_through_router`
 
 Not proved (differential only): that `serde_json::from_slice` / `beve::from_slice` /
@@ -49,7 +49,8 @@ theorem source_forms :
     Gen.handlerFacts.sliceRefOwned = Gen.handlerFacts.sliceRefView ∧
     Gen.handlerFacts.pipelineExecForwards = true ∧
     Gen.handlerFacts.pipelineViewDefault = true ∧ Gen.handlerFacts.offReaderViewDefault = true ∧
-    Gen.handlerFacts.nextForwardsCtx = true ∧ Gen.handlerFacts.serversEchoViewQuery = true := by
+    Gen.handlerFacts.nextForwardsCtx = true ∧ Gen.handlerFacts.serversEchoViewQuery = true ∧
+    Gen.handlerFacts.deriveTailTests = true := by
   decide
 
 /-! ## middleware runs for every route -/
@@ -466,6 +467,45 @@ theorem mounted_struct_call (p rest : Str) (hp : p ≠ []) (h : EscWF rest) (hr 
     · have : body.isEmpty = false := by simpa using hb
       simp only [this, Bool.false_eq_true, if_false, hb]
       cases F.structGate.lookup bfmt <;> rfl
+
+/-- Through derive-generated dispatch: a hand-written `RepeStruct` reached through ANY chain of
+`#[repe(nested)]` fields of derived structs is handed exactly the tokens that follow its own name –
+every one of them, empty tokens included (a lone trailing `""` is one token, not "the struct
+itself"). Together with `mounted_struct_call` / `segments_rfc6901`: nested under a mount at `p` via
+fields `names` it sees what it would see mounted directly at `p/names…`. (The generated arms'
+`tail` tests are the extracted fact `deriveTailTests`.) -/
+theorem nested_struct_sees_remaining_tokens (names rest : List Str) (hn : names ≠ []) (hr : rest ≠ []) (body : Bool) :
+    Gen.handlerFacts.deriveTailTests = true ∧
+    resolve (chainSpec names) [] (names ++ rest) body = .ok (.foreign names rest) := by
+  refine ⟨by decide, ?_⟩
+  simpa using resolve_chain names hn [] rest hr body
+
+/-- the two shapes agree: nested below a struct mounted at `p` vs mounted directly at `p ++ "/" ++ names…` -/
+theorem nested_equals_direct_mount (p sub rest : Str) (names : List Str) (hp : p ≠ []) (hn : names ≠ [])
+    (hsub : EscWF sub) (hsubs : ∃ r, sub = '/' :: r) (hnames : rfc6901 sub = names)
+    (hrest : EscWF rest) (hrs : ∃ r, rest = '/' :: r)
+    (hcat : rfc6901 (sub ++ rest) = names ++ rfc6901 rest) (hne : rfc6901 rest ≠ []) (body : Bool) :
+    -- mounted at p, addressed through the nested fields
+    ((relativePointer p (p ++ (sub ++ rest))).map fun rel =>
+        resolve (chainSpec names) [] (dispatchSegments Gen.routerFacts.stackSegs rel) body)
+      = some (.ok (.foreign names (rfc6901 rest))) ∧
+    -- mounted directly at p ++ sub
+    (relativePointer (p ++ sub) ((p ++ sub) ++ rest)).map (dispatchSegments Gen.routerFacts.stackSegs)
+      = some (rfc6901 rest) := by
+  obtain ⟨r1, rfl⟩ := hsubs
+  obtain ⟨r2, rfl⟩ := hrs
+  have hw : EscWF (('/' :: r1) ++ ('/' :: r2)) := escWF_append _ _ hsub hrest
+  constructor
+  · have h1 := struct_segments p (('/' :: r1) ++ ('/' :: r2)) hp hw (.inr ⟨r1 ++ '/' :: r2, rfl⟩)
+    obtain ⟨rel, hrel, hseg⟩ := Option.map_eq_some_iff.mp h1
+    rw [hrel, Option.map_some, hseg, hcat]
+    exact congrArg some (nested_struct_sees_remaining_tokens names _ hn hne body).2
+  · exact struct_segments (p ++ '/' :: r1) ('/' :: r2) (by simp) hrest (.inr ⟨r2, rfl⟩)
+
+example : resolve (chainSpec ["outer".toList, "spy".toList]) [] ["outer".toList, "spy".toList, []] false
+      = .ok (.foreign ["outer".toList, "spy".toList] [[]]) ∧
+    resolve (chainSpec ["spy".toList]) [] ["spy".toList] false = .ok (.foreign ["spy".toList] []) ∧
+    rfc6901 "/outer/spy/".toList = ["outer".toList, "spy".toList] ++ rfc6901 "/".toList := ⟨by rfl, by rfl, by decide⟩
 
 /-- A lock that refuses (`LockError::Poisoned` after a panic under a std lock, or `LockError::Other`
 from a user `Lockable`) never lets the request reach `repe_handle`; the body checks still come first. -/
